@@ -18,12 +18,15 @@ package escape
 //@   property C14
 //@   assumed
 //@   ensures result == vnode(g, variable)
+//@   modifies map(ssa.Value;*Node), map(*Node;types.Type), NodeGroup.nilNode, globalNodeGroup.nextNode
 
 //@ macro consults(v) = (called(derefsAreLocal, g, vnode(g.nodes, v)) && result == retof(derefsAreLocal, g, vnode(g.nodes, v)))
 
 //@ func instructionLocality
 //@   property C14
-//@   requires instr != nil && ref(instr) != 0 && g != nil
+//@   requires instr != nil && ref(instr) != 0 && wfGraph(g)
+//@   requires forall x *Node, y *Node :: has(g.edges, x) && has(g.edges[x], y) ==> y != nil
+//@   loop state invariant sel_wf: wfGraph(g) && (forall x *Node, y *Node :: has(g.edges, x) && has(g.edges[x], y) ==> y != nil)
 //@   ensures store: istype(instr, *ssa.Store) ==> consults(instr.(*ssa.Store).Addr)
 //@   ensures load: istype(instr, *ssa.UnOp) && instr.(*ssa.UnOp).Op == token.MUL && istype(instr.(*ssa.UnOp).X.Type().Underlying(), *types.Pointer) ==> consults(instr.(*ssa.UnOp).X)
 //@   ensures receive: istype(instr, *ssa.UnOp) && instr.(*ssa.UnOp).Op == token.ARROW && istype(instr.(*ssa.UnOp).X.Type().Underlying(), *types.Chan) ==> consults(instr.(*ssa.UnOp).X)
@@ -64,6 +67,8 @@ package escape
 //@   ensures edges_kept: edgesKept(g)
 //@   ensures others_unchanged: forall m *Node :: old(has(g.status, m)) ==> g.status[m] == old(g.status[m])
 //@   ensures edge_maps_kept: forall m *Node :: old(has(g.edges, m)) ==> has(g.edges, m) && g.edges[m] == old(g.edges[m])
+//@   ensures new_node_has_no_edges: !old(has(g.status, n)) ==> forall y *Node :: !has(g.edges[n], y)
+//@   ensures only_n_added: forall m *Node :: has(g.edges, m) ==> m == n || old(has(g.edges, m))
 //@   ensures wf: wfGraph(g)
 //@   modifies map(*Node;EscapeStatus), map(*Node;map[*Node]edgeFlags), map(*Node;*dataflow.EscapeRationale)
 
@@ -131,7 +136,6 @@ package escape
 // to has status Local; Pointees returns exactly the targets of the edges out of src.
 //@ func EscapeGraph.Pointees
 //@   property C14
-//@   requires g != nil && g.edges != nil
 //@   ensures exact: forall d *Node :: has(result, d) <==> (has(g.edges, src) && has(g.edges[src], d))
 //@   ensures fresh_set: isfresh(result)
 //@   modifies nothing
@@ -141,9 +145,12 @@ package escape
 //@ func derefsAreLocal
 //@   property C14
 //@   requires wfGraph(g)
-//@   requires forall x *Node :: has(g.edges, ptr) && has(g.edges[ptr], x) ==> x != nil
+//@   requires forall x *Node, y *Node :: has(g.edges, x) && has(g.edges[x], y) ==> y != nil
 //@   ensures local_only_if_all_local: result == nil ==> forall n *Node :: old(has(g.edges, ptr) && has(g.edges[ptr], n)) ==> g.status[n] == Local
+//@   ensures wf_kept: wfGraph(g)
+//@   ensures targets_kept: forall x *Node, y *Node :: has(g.edges, x) && has(g.edges[x], y) ==> y != nil
 //@   loop n invariant wf: wfGraph(g)
+//@   loop n invariant targets: forall x *Node, y *Node :: has(g.edges, x) && has(g.edges[x], y) ==> y != nil
 //@   loop n invariant checked: forall x *Node :: visited(n, x) ==> has(g.status, x) && g.status[x] == Local
 
 //@ property C14
@@ -151,7 +158,7 @@ package escape
 
 //@ func escapeCallsiteInfoImpl.Resolve
 //@   property C14 C13
-//@   requires c != nil && c.callsite != nil && callee != nil && c.prog != nil && c.nodes != nil && c.g != nil
+//@   requires c != nil && c.callsite != nil && callee != nil && c.prog != nil && c.nodes != nil && c.g != nil && c.g.edges != nil
 //@   ensures invoke_receiver: c.callsite.Call.IsInvoke() ==> called(mapNode, vnode(c.nodes, c.callsite.Call.Value), vnode(old(c.prog.summaries[callee].nodes), callee.Params[0]))
 //@   ensures invoke_args: forall i int :: c.callsite.Call.IsInvoke() && 0 <= i && i < len(c.callsite.Call.Args) && lang.IsNillableType(c.callsite.Call.Args[i].Type()) ==> called(mapNode, vnode(c.nodes, c.callsite.Call.Args[i]), vnode(old(c.prog.summaries[callee].nodes), callee.Params[i + 1]))
 //@   ensures static_args: forall i int :: !c.callsite.Call.IsInvoke() && 0 <= i && i < len(c.callsite.Call.Args) && lang.IsNillableType(c.callsite.Call.Args[i].Type()) ==> called(mapNode, vnode(c.nodes, c.callsite.Call.Args[i]), vnode(old(c.prog.summaries[callee].nodes), callee.Params[i]))
